@@ -1,4 +1,4 @@
-(* Model of dvc_data/index/checkout.py (as of /repo f4a117d, i.e. after fixes d2d7c8a, 8c795c3, ed61977):
+(* Model of dvc_data/index/checkout.py (as of /repo f4a117d, i.e. after fixes d2d7c8a, 8c795c3, ed61977, 41e56e8):
    compare / _compare / apply / _delete_files / _delete_dirs / _create_dirs / _create_files /
    _chmod_files, over an abstract workspace, with the old index = image of the workspace as
    index/build.py:build + index/save.py:md5 produce it.
@@ -10,8 +10,8 @@
      object's (hard link of a non-empty object, symbolic link): os.chmod through such a path
      reaches every other path sharing the object - this is what makes a non-executable entry
      executable under link types hardlink/symlink (DESIGN C09, Oracle note).
-     [Dangling] = a symbolic link whose cache object is absent (os.symlink does not look at its
-     source); build() + md5() drop it from the old index.
+     [Dangling] = a broken symbolic link in the prior workspace; build() + md5() drop it from the
+     old index (since 41e56e8 checkout itself no longer creates one).
    * target     = finite map key |-> TFile exec (content of the object its hash names | no hash)
                                     | TDir (hash?) lazy
      plus [trees]: the directory objects that can be loaded (listing relkey |-> content) and
@@ -303,23 +303,30 @@ Definition create_file (lt : link) (avail : list bytes) (w : ws) (kc : key * opt
                            end
                end
       | Symlink =>
-          (* os.symlink(src, dst): the source is not looked at *)
-          if negb (parent_ok k w) then (w, [(k, 2)])
+          (* 41e56e8: a missing source is reported and dropped before transfer; then os.symlink *)
+          if negb (mem_bytes c avail) then (w, [(k, 2)])
+          else if negb (parent_ok k w) then (w, [(k, 2)])
           else match lookup w k with
                | Some _ => (w, [])
-               | None => (set k (if mem_bytes c avail then File c false true else Dangling) w, [])
+               | None => (set k (File c false true) w, [])
                end
       end
   end.
 
-(* 8c795c3: `for parent in {fs.parent(dest) ...}: fs.makedirs(parent, exist_ok=True)` for the entries that
-   have a source path (hash-less entries were dropped with a ValueError before) *)
-Definition make_parents (l : list (key * option bytes)) (w : ws) : ws :=
-  fold_left (fun w kc => match snd kc with Some _ => makedirs (parent (fst kc)) w | None => w end) l w.
+(* 8c795c3: `for parent in {fs.parent(dest) ...}: fs.makedirs(parent, exist_ok=True)` for the entries handed
+   to transfer: those with a source path (hash-less entries were dropped with a ValueError before) and,
+   when symlink is among the link types, an existing source (41e56e8) *)
+Definition to_transfer (lt : link) (avail : list bytes) (kc : key * option bytes) : bool :=
+  match snd kc with
+  | None => false
+  | Some c => match lt with Symlink => mem_bytes c avail | _ => true end
+  end.
+Definition make_parents (lt : link) (avail : list bytes) (l : list (key * option bytes)) (w : ws) : ws :=
+  fold_left (fun w kc => if to_transfer lt avail kc then makedirs (parent (fst kc)) w else w) l w.
 
 Definition create_files (lt : link) (avail : list bytes) (l : list (key * option bytes)) (w : ws) : ws * errs :=
   fold_left (fun acc kc => let '(w1, e1) := create_file lt avail (fst acc) kc in (w1, snd acc ++ e1)) l
-            (make_parents l w, []).
+            (make_parents lt avail l w, []).
 
 (* os.chmod(path, st_mode | S_IEXEC) *)
 Definition set_exec_shared (c : bytes) (w : ws) : ws :=
